@@ -242,3 +242,76 @@ CONTRACTS += [
              raises=(), policy=POL_LIST, props=["C02"], replayable=False)
     for kind, n in (("list", 0), ("list", 1), ("list", 2), ("list", 3), ("tuple", 2))
 ]
+
+
+# ---- the network layer's abstraction of send()/resend() is SOUND w.r.t. the real bodies ---------------
+# C05/C07/C11/C13/C14/C15/C17 replace RF24.send(buf, send_only=True) and RF24.resend(send_only=True) by
+# spec/net_state.py ref_send_net / ref_resend_net: "the payload is handed over, an oracle decides the
+# outcome, CE is left high, the TX FIFO ends empty (sent) or holding the failed payload, the cached STATUS
+# is current, nothing else changes" (+ OBSERVE_TX and the RX_DR latch arbitrary).  Until now that link was
+# ARGUED from C02's clauses.  Here it is an obligation on the REAL bodies, under the PTX engine with
+# universally quantified outcomes: every post-state of the real call is one the abstraction allows for
+# ok == result.  Premise: no ACK payload arrives (network peers never load one).  What stays argued: that
+# the network layer's call sites establish send_pre / send_inv (they call send/resend only after
+# send/resend/read/listen, each of which keeps it).
+
+def cfg_and_rx(hw):
+    """everything the abstraction promises NOT to change: configuration and address registers, RX FIFO"""
+    r = hw.reg
+    return (r[0], r[1], r[2], r[3], r[4], r[5], r[6], r[9], bytes(hw.addr0), bytes(hw.addr1), r[0x0C], r[0x0D], r[0x0E], r[0x0F],
+            bytes(hw.txaddr), r[0x11], r[0x12], r[0x13], r[0x14], r[0x15], r[0x16], r[0x1C], r[0x1D],
+            hw.rx_n, hw.rx_pipe[0], hw.rx_pipe[1], hw.rx_pipe[2], hw.rx_len[0], hw.rx_len[1], hw.rx_len[2],
+            hw.rx_data[0], hw.rx_data[1], hw.rx_data[2], hw.bad_write, hw.ce_log)
+
+
+def ens_send_simulates(self, old_self, old_buf, result, exc):
+    hw = self._spi.hw
+    ohw = old_self._spi.hw
+    if exc is not None:
+        return False
+    if hw.ack_rx != ohw.ack_rx:
+        return True                       # premise: no ACK payload arrived
+    ok = isinstance(result, bool) and result
+    return (isinstance(result, bool) and hw.ce and not hw.inflight
+            and hw.tx_n == ite(ok, 0, 1) and (hw.reg[7] & 0x30) == ite(ok, 0x20, 0x10)
+            and self._in[0] == hw.status()
+            and cfg_and_rx(hw) == cfg_and_rx(ohw)
+            and view_cfg_shadows(self) == view_cfg_shadows(old_self))
+
+
+def ens_resend_simulates(self, old_self, result, exc):
+    hw = self._spi.hw
+    ohw = old_self._spi.hw
+    if exc is not None:
+        return False
+    if hw.ack_rx != ohw.ack_rx:
+        return True
+    ok = isinstance(result, bool) and result
+    base = (isinstance(result, bool) and not hw.inflight and self._in[0] == hw.status()
+            and cfg_and_rx(hw) == cfg_and_rx(ohw) and view_cfg_shadows(self) == view_cfg_shadows(old_self))
+    if ohw.tx_n == 0:
+        return base and not ok and hw.tx_n == 0 and hw.ce == ohw.ce and (hw.reg[7] & 0x30) == (ohw.reg[7] & 0x30)
+    return base and hw.ce and hw.tx_n == ite(ok, 0, ohw.tx_n) and (hw.reg[7] & 0x30) == ite(ok, 0x20, 0x10)
+
+
+def view_cfg_shadows(self):
+    return (self._config, self._aa, self._open_pipes, self._addr_len, self._retry_setup, self._channel, self._rf_setup,
+            self._dyn_pl, self._features, self._pl_len[0], self._pl_len[1], self._pl_len[2], self._pl_len[3], self._pl_len[4],
+            self._pl_len[5], bytes(self._pipes[0]), bytes(self._pipes[1]), self._pipes[2], self._pipes[3], self._pipes[4],
+            self._pipes[5], bytes(self._tx_address), self._pipe0_read_addr)
+
+
+def req_send_net(self, buf, ask_no_ack, force_retry, send_only):
+    return req_send(self, buf, ask_no_ack, force_retry, send_only) and 1 <= len(buf) and len(buf) <= 32
+
+
+CONTRACTS += [
+    Contract("C02.send.simulates_net_abstraction", "rf24:RF24.send",
+             {"self": rf24_schema(p0=Const(None), env=ENV), "buf": Bytes(0, None), "ask_no_ack": Const(False), "force_retry": Const(0),
+              "send_only": Const(True)},
+             requires=[R + "req_send_net"], ensures=[("allowed_by_ref_send_net", R + "ens_send_simulates")],
+             raises=(), policy=INL, props=["C02", "C05", "C07", "C15"], max_paths=20000, timeout_ms=60000),
+    Contract("C02.resend.simulates_net_abstraction", "rf24:RF24.resend", {"self": rf24_schema(p0=Const(None), env=ENV), "send_only": Const(True)},
+             requires=[R + "req_resend"], ensures=[("allowed_by_ref_resend_net", R + "ens_resend_simulates")],
+             raises=(), policy=INL, props=["C02", "C05", "C07", "C15"], max_paths=20000, timeout_ms=60000),
+]
